@@ -1,6 +1,8 @@
 import Robsd.Model.Bytes
 import Robsd.Model.Interp
 import Robsd.Gen.Arith
+import Robsd.Model.RegressLog
+import Robsd.Model.StepFile
 /-
   robsd_model: the executable models behind a line protocol.
   One request per line: `<component> <op> <args…>`; byte strings are hex
@@ -29,8 +31,35 @@ def parseEnv : List String → List (Bytes × Bytes)
   | k :: v :: rest => (hexArg k, hexArg v) :: parseEnv rest
   | _ => []
 
+def selOf (s : String) : RegressLog.Sel :=
+  let n := s.toNat?.getD 0
+  ⟨n % 2 == 1, (n / 2) % 2 == 1, (n / 4) % 2 == 1, (n / 8) % 2 == 1⟩
+
+def selArg (s : String) : StepFile.Sel :=
+  if s.startsWith "n:" then .name (hexArg (s.drop 2).toString) else .idx ((s.drop 2).toString.toInt?.getD 0)
+
 def handle (ws : List String) : String :=
   match ws with
+  | "step" :: "write" :: file :: id :: flush :: kvs =>
+    let fl := if flush == "ok" then StepFile.Flush.ok else .failed (hexArg ((flush.drop 5).toString))
+    let r := StepFile.writeCmd (hexArg file) (id.toInt?.getD 0) (kvs.map hexArg) fl
+    s!"{r.1} {toHex r.2}"
+  | "step" :: "read" :: file :: sel :: tmpl :: [] =>
+    let r := StepFile.readCmd (hexArg file) (selArg sel) (hexArg tmpl)
+    s!"{r.1} {toHex r.2}"
+  | "step" :: "parse" :: file :: [] =>
+    match StepFile.parseFile (hexArg file) with
+    | none => "fail"
+    | some rows => s!"ok {rows.length}"
+  | "rlog" :: "parse" :: sel :: nl :: c :: [] =>
+    let r := RegressLog.parseOut (selOf sel) (nl == "1") (hexArg c)
+    s!"{r.1} {toHex r.2}"
+  | "rlog" :: "peek" :: sel :: c :: [] =>
+    s!"{RegressLog.peek (selOf sel) (lines (hexArg c))}"
+  | "rlog" :: "trim" :: c :: [] => toHex (RegressLog.trim (hexArg c))
+  | "rlog" :: "main" :: sel :: dp :: files =>
+    let r := RegressLog.main (selOf sel) (dp == "1") (files.map fun f => if f == "!" then none else some (hexArg f))
+    s!"{r.1} {toHex r.2}"
   | "arith" :: f :: a :: b :: [] =>
     match Gen.arithTable.find? (fun e => e.1 == f), a.toInt?, b.toInt? with
     | some e, some x, some y =>
